@@ -279,6 +279,7 @@ func init() {
 		}
 		return v
 	})
+	vx("Atoi", func(ex *Exec, fr *Frame, a []Value, s ssa.Instruction) Value { return ex.tt.UF("atoi", SBV64, a[0].(*Term)) })
 	vx("HttpReplies", func(ex *Exec, fr *Frame, a []Value, s ssa.Instruction) Value {
 		return ex.tt.BV(uint64(len(ex.W.httpReplies)), 64)
 	})
